@@ -26,9 +26,10 @@ import (
 // verifier under the keys file's verifying key.
 type C19 struct {
 	base
-	dir  string
-	keys []*cliKeys
-	w    int
+	initProblem string
+	dir         string
+	keys        []*cliKeys
+	w           int
 }
 
 type cliKeys struct {
@@ -127,7 +128,8 @@ func (c *C19) Init(tier string, worker, nworkers int, seed uint64) error {
 			return fmt.Errorf("reference load of %s: %w", path, err)
 		}
 		if ps.TreeDepth != uint32(d.depth) || ps.BatchSize != uint32(d.batch) {
-			return fmt.Errorf("keys file %s reports depth %d batch %d", path, ps.TreeDepth, ps.BatchSize)
+			// the pipeline does not compose: `setup` wrote a file that reads back as another system
+			c.initProblem = fmt.Sprintf("`gnark-mbu setup --mode %s --tree-depth %d --batch-size %d` wrote a keys file that loads as depth %d batch %d", d.mode, d.depth, d.batch, ps.TreeDepth, ps.BatchSize)
 		}
 		c.keys = append(c.keys, &cliKeys{sys: &gtier.System{Mode: d.mode, Depth: d.depth, Batch: d.batch, PS: ps}, path: path})
 	}
@@ -181,6 +183,10 @@ func refVerify(k *cliKeys, hash *big.Int, proofJSON []byte) bool {
 
 func (c *C19) Run(x *engine.Ctx) *engine.Violation {
 	t := x.T
+	if c.initProblem != "" {
+		x.S.Eval(1)
+		return engine.Violatef("C19/setup-keys-file-does-not-describe-the-requested-system", "%s", c.initProblem)
+	}
 	var params []*cliParams
 	var proofs []*cliProof
 	var lg []string
